@@ -70,7 +70,7 @@ Lemma max_param_ge s ops : maxsupply s <= max_param s ops.
 Proof. destruct ops; cbn [max_param]; lia. Qed.
 
 Lemma max_param_const ops : forall s,
-  (forall o, In o ops -> match o with OSetParams _ _ _ => False | _ => True end) ->
+  (forall o, In o ops -> match o with OSetParams _ _ _ _ => False | _ => True end) ->
   max_param s ops = maxsupply s.
 Proof.
   induction ops as [|o ops IH]; intros s Hno; [reflexivity|]. cbn [max_param].
